@@ -1035,7 +1035,13 @@ func (db *DB) deleteObjects(from *iterator) (err error) {
 
 	defer db.commit(from.object())
 
-	for o, err = from.next(); err == nil || err != ErrEOI; o, err = from.next() {
+	for o, err = from.next(); err != ErrEOI; o, err = from.next() {
+		// an object which cannot be read anymore is still deleted from
+		// the index, but without object the collection itself cannot be
+		// used (dropped meanwhile, structure changed)
+		if o == nil {
+			return
+		}
 		if err = db.delete(o); err != nil {
 			return
 		}
